@@ -21,6 +21,7 @@ import DefconModel.Lemmas.ReprDom
 import DefconModel.Lemmas.ReprDep
 import DefconModel.Lemmas.ReprHold
 import DefconModel.ReprLayers
+import DefconModel.Spec.ReprCells
 import DefconModel.Gen.ReprTables
 
 namespace DefconModel.Props.C03
@@ -288,6 +289,14 @@ def hexWorld : HWorld (List Tok) := { w := run uniParams Gen.ReprTables.tables {
 /-- **cells_agree.**  The public table `mutSpecs` (per class and mutator: cells it may rewrite, cells an effective call must
 rewrite, guard) and the cell codes the primitives of the model use say the same, row by row. -/
 theorem cells_agree : cellsAgree = true := by decide
+
+/-- **guards_hold.**  The guard of every row - does the method compare first and return without posting, or does it run
+to its posts whatever it is given - is the one read off the method's body in the source under test (regenerated table). -/
+theorem guards_hold : guardsAgree Gen.ReprTables.tables = true := by decide
+
+/-- **direct_calls_hold.**  The direct `destroyRepresentation` calls in the mutators of the source under test are exactly
+the ones the hold model performs inside a hold (`reverse`: the area; `move`: computed names, `moveCache`). -/
+theorem direct_calls_hold : directAgree Gen.ReprTables.tables = true := by decide
 
 example : (specOf "Component" "_set_transformation").map (·.guard) = some Guard.same := by decide
 example : (specOf "Contour" "reverse").map (·.cells) = some [Cell.contourPoints, Cell.contourIdent] := by decide
